@@ -85,6 +85,11 @@ sizes:    (notes/SIZE_STRESS.md) the abstract cases do not change, the concretiz
           100000 identical lines, 65536-character lines, histories of 200 / 50 / 12 / 10 versions
           with patch chains of 199 / 29 / 11 / 9 patches and an index of 199 entries, two calls on
           a 1 MiB file) recorded with the same abstraction and validated by TLC.
+lines:    a line of a published text ends at '\\n' and nowhere else: the texts of all legs (replay, traces,
+          size stress) contain lines with \\x0b \\x0c \\x1c \\x1d \\x1e and (UTF-8 locale) U+0085 U+2028 U+2029 at
+          the start / in the middle / before the newline; in a third of the histories such a line is added at
+          the top by the second version so that the later patches of a chain edit lines below it; the
+          returned list must be the current content cut at '\\n' only.
 domain:   D6 (unusable index = absent, empty, or rejected by the PackageFile grammar), D7 (no line
           that is exactly '.'); texts are newline-terminated lines without '\\r'.
 """
